@@ -245,7 +245,13 @@ func (c08) Judge(c *Case, obs []*Obs) []Finding {
 				add(Finding{Class: "heredoc-body-shape", Obs: []int{oi}, Detail: fmt.Sprintf("here-document %d (%s %s): %v", i, want.Op, want.Delim, err)})
 				break
 			}
-			if body != want.Body {
+			wantBody := want.Body
+			if !want.Quoted {
+				// backslash-newline is a line continuation in an expanding here-document: compare modulo its removal
+				wantBody = strings.ReplaceAll(wantBody, "\\\n", "")
+				body = strings.ReplaceAll(body, "\\\n", "")
+			}
+			if body != wantBody {
 				add(Finding{Class: "heredoc-body", Obs: []int{oi}, Detail: fmt.Sprintf("here-document %d (%s %s): body %q, expected %q", i, want.Op, want.Delim, shortStr(body, 200), shortStr(want.Body, 200))})
 				break
 			}
